@@ -36,13 +36,14 @@ NearSet(s) == {m \in UNION {Mutations(r) : r \in AuthSet(s)} : ~Authorised(s, m)
 RE(S) == RandomElement(S)
 SubRand(i, muts) ==
   [op |-> "Submit", api |-> RE({"authorize", "fetch"}), mut |-> RE(muts), nb |-> RE(GridNB), na |-> RE(GridNA),
-   sknb |-> RE(SkewNB), skna |-> RE(SkewNA), k |-> RE(CertKeys), e |-> RE(EncKeys), n |-> RE(Nonces)]
+   sknb |-> RE(SkewNB), skna |-> RE(SkewNA), k |-> RE(CertKeys), e |-> RE(EncKeys), n |-> RE(Nonces), prime |-> RE(BOOLEAN)]
 GenRand(i, signers) ==
   [op |-> "GenCerts", k |-> RE(CertKeys), nid |-> RE(NodeIds \cup {NONE}), order |-> RE(Perms(CertKeys)),
    nsig |-> RE(signers), hasState |-> RE(BOOLEAN), ssig |-> RE(signers \cup {NONE}), skip |-> RE({FALSE, FALSE, FALSE, TRUE})]
 RotRand(i, srcs, nonces) ==
   [op |-> "Rotate", k |-> RE(CertKeys), nid |-> RE(NodeIds \cup {NONE}), order |-> RE(Perms(CertKeys)),
-   src |-> RE(srcs), which |-> RE({"cur", "cur", "prev"}), k2 |-> RE(CertKeys), e2 |-> RE(EncKeys), n2 |-> RE(nonces)]
+   src |-> RE(srcs), which |-> RE({"cur", "cur", "prev"}), k2 |-> RE(CertKeys), e2 |-> RE(EncKeys), n2 |-> RE(nonces),
+   ostate |-> RE(StateOrNone)]
 
 OpsOf(cls, s) ==
   CASE cls = "Authorize"  -> AuthorizeOps
@@ -52,6 +53,8 @@ OpsOf(cls, s) ==
     [] cls = "Regw"       -> RegwOps
     [] cls = "Nid"        -> {o \in NidOps : s.nodes[o.k].present}
     [] cls = "Prev"       -> {o \in PrevOps : Apply(s, o).res # "skip"}
+    [] cls = "KeyKind"    -> {o \in KeyKindOps : s.nodes[o.k].present}
+    [] cls = "Strip"      -> {o \in StripOps : s.nodes[o.k].present}
     [] cls = "Tamper"     -> {o \in TamperOps : Apply(s, o).res # "skip"}
     [] cls = "FetchAuth"  -> AuthSet(s)
     [] cls = "FetchNear"  -> NearSet(s)
